@@ -30,4 +30,12 @@ CentroidOK(rings, idxs, shell, ks, gxn, gyn, gd, sc) ==
   A # 0 =>
     /\ AbsC(gxn * 3 * A - CX * gd) * 1073741824 <= sc * 3 * AbsC(A) * gd
     /\ AbsC(gyn * 3 * A - CY * gd) * 1073741824 <= sc * 3 * AbsC(A) * gd
+\* ring direction and signed area of one ring (C14: "a simple ring is reported counter-clockwise exactly when its exact signed
+\* area is positive, and the signed-area function returns that area (clockwise positive) to within rounding"):
+\* ccw = what IsRingCounterClockwise said; gn / gd = what SignedArea returned; the rings of this tier are simple
+\* @type: (Seq(Seq(Int)), Seq(Int), Bool, Int, Int, Int) => Bool;
+RingOK(r, idx, ccw, gn, gd, sc) ==
+  LET A == RingA2(r, idx) IN
+  /\ (A # 0 => (ccw <=> A > 0))
+  /\ AbsC(2 * gn + A * gd) * 1073741824 <= 2 * sc * sc * gd
 ====
